@@ -40,7 +40,10 @@ def one(rng, with_past=False):
     out = gram.enc_grammar(g) + " # " + gram.enc_lexicon(lex)
     lines = [Line("corr", "extract", [enc], out),
              Line("pred", "P.C06", [enc, gram.enc_grammar(g), gram.enc_lexicon(lex)])]
-    disc = not grammaranalysis.is_contextfree(g)
+    cf = grammaranalysis.is_contextfree(g)
+    lines.append(Line("corr", "is_contextfree", [gram.enc_grammar(g)], "t" if cf else "f"))
+    lines.append(Line("pred", "P.C06.cf", [enc, "t" if cf else "f"]))
+    disc = not cf
     multi = any(c > 1 for f in g for l in g[f] for c in g[f][l].values())
     return Case("treebank-with-past" if with_past else "treebank", {"trees": [proto.pretty_tree(t) for t in ts], "history": past},
                 lines, nontrivial=disc or multi, tags=(["disc"] if disc else []) + (["count>1"] if multi else []))
